@@ -198,7 +198,8 @@ def check_kind(rep, prog, kind, mod, fn, written, rules=('identity', 'immittance
             try: inv = as_poly(imm).inv()
             except Exception: inv = None
             ok = inv is not None and term_equal(inv, imm_spec) and as_poly(imm).single() is not None
-            rep.ob(f'{pid_rule}.immittance', kind, True if ok else None, f"dual form {form}: {imm!r} vs specification {sp['form']}: {imm_spec!r}", site)
+            decided = inv is not None and as_poly(imm).single() is not None and as_poly(imm_spec).single() is not None and not has_opaque(imm)
+            rep.ob(f'{pid_rule}.immittance', kind, True if ok else (False if decided else None), f"dual form {form}: {'Z' if form == 'N' else 'Y'} = {imm!r} vs specification {'Z' if sp['form'] == 'N' else 'Y'} = {imm_spec!r}", site)
     if 'phasor' in rules and form is not None:
         if form == sp['form'] or (as_poly(src).is_zero() and as_poly(src_spec).is_zero()):
             ok = term_equal(src, src_spec)
